@@ -260,3 +260,221 @@ Proof.
   repeat (destruct Hin as [E|Hin]; [subst t; simpl in Hc|]); try contradiction;
     repeat (destruct Hc as [E|Hc]; [inversion E; subst|]); try contradiction.
 Qed.
+
+(* ================================================================ conservativity *)
+(* a core module, read as a surface module (no COMPONENTS OF, no marker in any
+   enumeration), expands to itself under either policy: the surface model
+   extends the model of Fix/Tags.v *)
+Definition embed_comps (f : ty -> xty) := fix go (l : list (cinfo * ty)) : list (option cinfo * xty) :=
+  match l with
+  | [] => []
+  | (c, t') :: l' => (Some c, f t') :: go l'
+  end.
+Fixpoint embed_ty (t : ty) : xty :=
+  match t with
+  | TPrim p => XPrim p
+  | TEnum items => XEnum items None
+  | TCons k r1 ext r2 =>
+      XCons k (embed_comps embed_ty r1)
+            (match ext with Some a => Some (embed_comps embed_ty a) | None => None end)
+            (embed_comps embed_ty r2)
+  | TSeqOf e => XSeqOf (embed_ty e)
+  | TRef r => XRef r
+  end.
+Definition embed_def (d : def) : xdef := {| xd_name := d_name d; xd_tag := d_tag d; xd_ty := embed_ty (d_ty d) |}.
+Definition embed (m : module) : xmodule := {| xm_tagging := m_tagging m; xm_defs := map embed_def (m_defs m) |}.
+
+Section Conservative.
+Variable pol : policy.
+Variable tg : tagging.
+Variable fin : bool.
+Variable done : list def.
+
+Definition xgo (k : kind) := fix go (l : list (option cinfo * xty)) : option (list fcomp) :=
+  match l with
+  | [] => Some []
+  | (oc, t') :: l' =>
+      match go l' with
+      | None => None
+      | Some rest =>
+          match oc with
+          | Some c =>
+              match expand_ty pol tg fin done t' with
+              | Some t'' => Some ((false, (c, t'')) :: rest)
+              | None => None
+              end
+          | None =>
+              match t' with
+              | XRef r =>
+                  match inherited pol done k r with
+                  | Some inh => Some (map (fun ct => (true, ct)) inh ++ rest)
+                  | None => None
+                  end
+              | _ => None
+              end
+          end
+      end
+  end.
+
+Lemma expand_ty_cons : forall k r1 ext r2,
+  expand_ty pol tg fin done (XCons k r1 ext r2) =
+  match xgo k r1, xgo k r2,
+        match ext with
+        | None => Some None
+        | Some a => match xgo k a with Some a' => Some (Some a') | None => None end
+        end with
+  | Some e1, Some e2, Some ee => Some (finish pol fin k (xauto tg r1 (xadds ext) r2) e1 ee e2)
+  | _, _, _ => None
+  end.
+Proof. reflexivity. Qed.
+
+Definition own (l : list (cinfo * ty)) : list fcomp := map (fun ct => (false, ct)) l.
+
+Lemma xgo_embed : forall k l,
+  Forall (fun c => expand_ty pol tg fin done (embed_ty (snd c)) = Some (snd c)) l ->
+  xgo k (embed_comps embed_ty l) = Some (own l).
+Proof.
+  intros k l H. induction H as [|[c t] l Hc _ IH]; [reflexivity|].
+  simpl in *. rewrite IH, Hc. reflexivity.
+Qed.
+
+Lemma untag_own : forall l, map untag_inh (own l) = own l.
+Proof. induction l as [|[c t] l IH]; simpl; [reflexivity|]. rewrite IH. reflexivity. Qed.
+Lemma snd_own : forall l, map snd (own l) = l.
+Proof. induction l as [|[c t] l IH]; simpl; [reflexivity|]. rewrite IH. reflexivity. Qed.
+Lemma rename_own : forall names b l i, rename_from names b i (own l) = l.
+Proof. intros names b. induction l as [|[c t] l IH]; intro i; simpl; [reflexivity|]. rewrite IH. reflexivity. Qed.
+
+Lemma finish_own : forall k auto r1 ext r2,
+  finish pol fin k auto (own r1) (match ext with Some a => Some (own a) | None => None end) (own r2)
+  = TCons k r1 ext r2.
+Proof.
+  intros k auto r1 ext r2. unfold finish.
+  assert (Hun : forall l, (if fin && auto then map untag_inh (own l) else own l) = own l)
+    by (intro l; destruct (fin && auto); [apply untag_own|reflexivity]).
+  assert (Hrn : forall names b i l, (if fin && p_rename pol then rename_from names b i (own l) else map snd (own l)) = l)
+    by (intros names b i l; destruct (fin && p_rename pol); [apply rename_own|apply snd_own]).
+  destruct ext as [a|]; rewrite ?Hun, ?Hrn; reflexivity.
+Qed.
+
+Lemma expand_embed_ty : forall t, expand_ty pol tg fin done (embed_ty t) = Some t.
+Proof.
+  induction t as [p|items|k r1 ext r2 H1 He H2|e IH|r] using ty_ind'; try reflexivity.
+  - change (embed_ty (TCons k r1 ext r2)) with
+      (XCons k (embed_comps embed_ty r1)
+             (match ext with Some a => Some (embed_comps embed_ty a) | None => None end)
+             (embed_comps embed_ty r2)).
+    rewrite expand_ty_cons. rewrite (xgo_embed k r1 H1), (xgo_embed k r2 H2).
+    destruct ext as [a|]; simpl in He.
+    + rewrite (xgo_embed k a He). rewrite <- (finish_own k (xauto tg (embed_comps embed_ty r1) (embed_comps embed_ty a) (embed_comps embed_ty r2)) r1 (Some a) r2). reflexivity.
+    + rewrite <- (finish_own k (xauto tg (embed_comps embed_ty r1) [] (embed_comps embed_ty r2)) r1 None r2). reflexivity.
+  - simpl. rewrite IH. reflexivity.
+Qed.
+End Conservative.
+
+Lemma expand_defs_embed : forall pol tg ds done out,
+  expand_defs pol tg done out (map embed_def ds) = Some (out ++ ds).
+Proof.
+  intros pol tg. induction ds as [|d ds IH]; intros done out; simpl.
+  - rewrite app_nil_r. reflexivity.
+  - rewrite !expand_embed_ty. rewrite IH.
+    replace (mk_def (embed_def d) (d_ty d)) with d by (destruct d; reflexivity).
+    rewrite <- app_assoc. reflexivity.
+Qed.
+
+Theorem expand_embed : forall pol m, expand pol (embed m) = Some m.
+Proof.
+  intros pol m. unfold expand, embed. simpl. rewrite expand_defs_embed. destruct m; reflexivity.
+Qed.
+
+(* ---- the verdicts agree on embedded modules ---- *)
+Definition xsub_go := fix go (l : list (option cinfo * xty)) : list xty :=
+  match l with
+  | [] => []
+  | (Some _, t') :: l' => xsubtypes t' ++ go l'
+  | (None, _) :: l' => go l'
+  end.
+Lemma xsubtypes_cons : forall k r1 ext r2,
+  xsubtypes (XCons k r1 ext r2) =
+  XCons k r1 ext r2 :: xsub_go r1 ++ xsub_go r2 ++ match ext with Some a => xsub_go a | None => [] end.
+Proof. reflexivity. Qed.
+
+Lemma xsubtypes_embed : forall t, xsubtypes (embed_ty t) = map embed_ty (subtypes t).
+Proof.
+  induction t as [p|items|k r1 ext r2 H1 He H2|e IH|r] using ty_ind'; try reflexivity.
+  - change (embed_ty (TCons k r1 ext r2)) with
+      (XCons k (embed_comps embed_ty r1)
+             (match ext with Some a => Some (embed_comps embed_ty a) | None => None end)
+             (embed_comps embed_ty r2)).
+    rewrite xsubtypes_cons, subtypes_cons.
+    assert (G : forall l, Forall (fun c => xsubtypes (embed_ty (snd c)) = map embed_ty (subtypes (snd c))) l ->
+                xsub_go (embed_comps embed_ty l) = map embed_ty (sub_go l)).
+    { intros l F. induction F as [|[c t] l Hc _ IHl]; [reflexivity|].
+      simpl in *. rewrite Hc, IHl, map_app. reflexivity. }
+    rewrite map_cons. f_equal.
+    rewrite !map_app. rewrite (G r1 H1), (G r2 H2).
+    destruct ext as [a|]; simpl in He; [rewrite (G a He)|]; reflexivity.
+  - simpl. rewrite IH. reflexivity.
+Qed.
+
+Lemma all_xtypes_embed : forall m, all_xtypes (embed m) = map embed_ty (all_types m).
+Proof.
+  intro m. unfold all_xtypes, all_types, embed. simpl.
+  induction (m_defs m) as [|d ds IH]; [reflexivity|].
+  simpl. rewrite IH, map_app. rewrite xsubtypes_embed. reflexivity.
+Qed.
+
+Lemma xhas_tag_embed : forall l, existsb xhas_tag (embed_comps embed_ty l) = existsb has_tag l.
+Proof. induction l as [|[c t] l IH]; [reflexivity|]. simpl. rewrite IH. reflexivity. Qed.
+
+Lemma embed_comps_app : forall l l', embed_comps embed_ty (l ++ l') = embed_comps embed_ty l ++ embed_comps embed_ty l'.
+Proof. induction l as [|[c t] l IH]; intro l'; [reflexivity|]. simpl. rewrite IH. reflexivity. Qed.
+
+Lemma xexttag_embed : forall tg t,
+  xexttag_bad tg (embed_ty t) =
+  match t with TCons _ r1 (Some a) r2 => exttag_error tg (root_of r1 r2) a | _ => false end.
+Proof.
+  intros tg t. destruct t as [p|items|k r1 [a|] r2|e|r]; try reflexivity; simpl.
+  - destruct tg; try reflexivity. unfold exttag_error, root_of.
+    rewrite <- embed_comps_app, !xhas_tag_embed. reflexivity.
+Qed.
+
+Lemma fix_ok_pre_quiet : forall m, fix_module m = NOk [] -> pre_reasons (embed m) = [].
+Proof.
+  intros m H. unfold fix_module in H. apply nres_app_ok in H. destruct H as [_ Hd].
+  assert (Hn : forall t, In t (all_types m) -> exists p, check_node m (compare_fuel m) p t = NOk []).
+  { intros t Hin. unfold all_types in Hin. apply in_flat_map in Hin. destruct Hin as [d [Hd1 Hd2]].
+    pose proof (check_defs_ok m _ _ Hd d Hd1) as Hdef. unfold check_def in Hdef.
+    apply nres_app_ok in Hdef. destruct Hdef as [_ Hty].
+    exact (check_ty_ok m _ _ _ Hty t Hd2). }
+  unfold pre_reasons. rewrite all_xtypes_embed.
+  rewrite !existsb_false_forall; [reflexivity| |].
+  - intros x Hx. apply in_map_iff in Hx. destruct Hx as [t [E _]]. subst x.
+    destruct t as [p|items|k r1 ext r2|e|r]; reflexivity.
+  - intros x Hx. apply in_map_iff in Hx. destruct Hx as [t [E Hin]]. subst x.
+    rewrite xexttag_embed. destruct t as [p|items|k r1 [a|] r2|e|r]; try reflexivity.
+    destruct (Hn _ Hin) as [p Hp]. unfold check_node in Hp.
+    destruct (scan_all m (compare_fuel m) match k with KSeq => true | _ => false end
+                       (members (m_tagging m) p r1 (Some a) r2)) as [|c]; [discriminate|].
+    inversion Hp as [E]. apply app_eq_nil in E. destruct E as [E _].
+    apply app_eq_nil in E. destruct E as [_ E]. apply app_eq_nil in E. destruct E as [_ E].
+    apply when_nil in E. exact E.
+Qed.
+
+Theorem xcheck_embed_accept : forall m, xcheck (embed m) = XAccept <-> check m = Accept.
+Proof.
+  intro m. split; intro H.
+  - apply xcheck_accept in H. destruct H as [m' [Em [Hc _]]].
+    unfold expand_c in Em. rewrite expand_embed in Em. inversion Em; subst. exact Hc.
+  - apply (xcheck_of_check (embed m) m); [apply expand_embed| |exact H].
+    apply fix_ok_pre_quiet. apply accept_fix_ok. exact H.
+Qed.
+
+Theorem xcheck_embed_crashes : forall m, xcheck (embed m) = XCrashes <-> check m = Crashes.
+Proof.
+  intro m. unfold xcheck, check, expand_c. rewrite expand_embed.
+  destruct (fix_module m) as [|rs] eqn:Ef; [tauto|].
+  destruct rs as [|r rs].
+  - rewrite (fix_ok_pre_quiet m Ef). simpl. destruct (compile_ends m); split; (reflexivity || discriminate).
+  - destruct (pre_reasons (embed m)); simpl; split; discriminate.
+Qed.
